@@ -46,6 +46,11 @@ def make_conv(kind):
     return bc.make_converter(kind)
 
 
+def real_conv(kind):
+    """what is passed to fsic when no call log is needed: None (fsic's own default converter) for 'default'"""
+    return None if kind == 'default' else make_conv(kind)
+
+
 # --------------------------------------------------------------------------- implementation
 def _namespace():
     import fsic
@@ -107,7 +112,6 @@ def impl(case):
         o['def_exc'] = type(e).__name__
         o['calls'] = len(lg.calls)
         return o
-    o['text'] = pc.hx(text)
     o['calls'] = [[s.name, s.type.name] for s in lg.calls]
     o['count'] = lg.f.n if kind == 'count' else 0
     block = '\n\n'.join(textwrap.indent(r, PREFIX) for r in lg.returned)
@@ -116,19 +120,24 @@ def impl(case):
     o['emitting'] = [[s.name, s.type.name] for s in syms if s.type in (fsic.parser.Type.ENDOGENOUS, fsic.parser.Type.VERBATIM)
                      and s.equation is not None and s.code is not None]
     if kind == 'default':
+        # the text compared with the model is the one of fsic's OWN default converter (converter=None); the logged twin of
+        # the documented default converter must give the same text
         try:
-            o['default_same'] = fsic.build_model_definition(syms, with_type_hints=hints, **kw) == text
+            own = fsic.build_model_definition(syms, with_type_hints=hints, **kw)
+            o['default_same'] = own == text
+            text = own
         except BaseException as e:      # noqa: BLE001
             o['default_same'] = type(e).__name__
+    o['text'] = pc.hx(text)
     try:
-        other = fsic.build_model_definition(syms, converter=make_conv(kind), with_type_hints=not hints, **kw)
+        other = fsic.build_model_definition(syms, converter=real_conv(kind), with_type_hints=not hints, **kw)
     except BaseException as e:      # noqa: BLE001
         other = None
         o['other_exc'] = type(e).__name__
     # the four ways
     ways = {}
     try:
-        cls_a = fsic.build_model(syms, converter=make_conv(kind), with_type_hints=hints, **kw)
+        cls_a = fsic.build_model(syms, converter=real_conv(kind), with_type_hints=hints, **kw)
         ways['build_model'] = cls_a
         o['code_is_text'] = getattr(cls_a, 'CODE', None) == text
     except BaseException as e:      # noqa: BLE001
@@ -414,7 +423,7 @@ def gen(rng, tier):
             for conv in CONVS:
                 add('corpus', script=script, hints=hints, conv=conv)
         add('corpus', script=script, hints=True, conv='broken')
-    for _ in range(50000 if big else 8000):
+    for _ in range(50000 if big else 6000):
         safe = rng.random() < 0.6
         ast = bc.gen_ast(rng, safe=safe, n_eq=rng.choice([0, 1, 1, 2, 3, 4]))
         # distinct left-hand names so that the script is accepted
@@ -427,9 +436,9 @@ def gen(rng, tier):
         if rng.random() < 0.2:
             script += rng.choice(['\n`tmp = 1`', '\n```\nfoo = 1\nbar = foo + 1\n```', '\n```\nif True:\n    z = 0\n```'])
         add('ast', script=script, opts=_opts(rng), hints=rng.random() < 0.5, conv=rng.choice(CONVS + ['default', 'count']), safe=safe)
-    for _ in range(20000 if big else 4000):
+    for _ in range(20000 if big else 3000):
         add('symbols', symbols=_rand_symbols(rng), opts=_opts(rng), hints=rng.random() < 0.5, conv=rng.choice(CONVS))
-    for _ in range(15000 if big else 2000):
+    for _ in range(15000 if big else 1500):
         s = pc.gen_script(rng)
         if rng.random() < 0.5:
             s = pc.mutate(rng, s)
